@@ -66,7 +66,8 @@ def work(job):
     if kind == "gen":
         t = trees.gen_tree(rnd, nfiles=rnd.choice([1, 2, 3, 6]), stmts=(0, 20), structured=structured,
                            idclass=rnd.choice(["none", "dense", "gaps", "zero", "none"]), label="g%d" % i,
-                           missing_cap=rnd.choice([None, None, 0, 1]))
+                           missing_cap=rnd.choice([None, None, 0, 1]), directives=rnd.random() < 0.3,
+                           complete_prob=rnd.choice([0.0, 0.4, 0.7]))
         files = dict(t.files)
         truth_missing = t.missing
         if structured and rnd.random() < 0.5:
